@@ -210,6 +210,12 @@ fn ecies_enc(req: &Value) -> R {
             Err(_) => mk_key(req, "key", "compressed")?.to_public_key().map_err(lib)?,
         };
         o["direct_decrypt"] = sub(|| ECIES::decrypt(&ct, &rk, &sender_pub), |b| h(&b));
+        // the genuine sender key handed over in the OTHER SEC1 form (a key is a point, not an encoding)
+        let other_form = if sender_pub.is_compressed() { sender_pub.to_decompressed() } else { sender_pub.to_compressed() };
+        if let Ok(of) = other_form {
+            o["direct_decrypt_other_form"] = sub(|| ECIES::decrypt(&ct, &rk, &of), |b| h(&b));
+            o["direct_decrypt_other_form_via_key"] = sub(|| rk.decrypt_message(&ct, &of), |b| h(&b));
+        }
         // immediately afterwards, on the same thread: the NEGATED sender key (same x coordinate, other parity), then the genuine key again
         if let Ok(sb) = sender_pub.to_compressed().and_then(|p| p.to_bytes()) {
             let mut nb = sb.clone();
@@ -303,7 +309,7 @@ fn bsm_verify(req: &Value) -> R {
 }
 
 fn hash(req: &Value) -> R {
-    let m = hx(req, "msg")?;
+    let m = msg_of(req)?;
     let hsh = match st(req, "fn")? {
         "sha1" => Hash::sha_1(&m),
         "sha256" => Hash::sha_256(&m),
@@ -317,7 +323,7 @@ fn hash(req: &Value) -> R {
 }
 
 fn hmac(req: &Value) -> R {
-    let m = hx(req, "msg")?;
+    let m = msg_of(req)?;
     let k = hx(req, "key")?;
     let hsh = match st(req, "fn")? {
         "sha1" => Hash::sha_1_hmac(&m, &k),
@@ -427,8 +433,21 @@ fn aes(req: &Value) -> R {
         "256ctr" => AESAlgorithms::AES256_CTR,
         m => return Err(drv(format!("mode {}", m))),
     };
-    let (k, iv, m) = (hx(req, "key")?, hx(req, "iv")?, hx(req, "msg")?);
+    let (k, iv, m) = (hx(req, "key")?, hx(req, "iv")?, msg_of(req)?);
     let vi = bo(req, "via_impl");
+    // `misalign`: the message (and key / IV) are handed over as sub-slices that start `misalign` bytes into a larger buffer
+    let off = un_opt(req, "misalign").unwrap_or(0) as usize;
+    let (kb, ivb, mb) = if off > 0 {
+        let pad = |v: &Vec<u8>| {
+            let mut b = vec![0xEEu8; off];
+            b.extend_from_slice(v);
+            b
+        };
+        (pad(&k), pad(&iv), pad(&m))
+    } else {
+        (k.clone(), iv.clone(), m.clone())
+    };
+    let (k, iv, m) = (&kb[off..], &ivb[off..], &mb[off..]);
     let out = match st(req, "dir")? {
         "enc" if vi => AES::encrypt_impl(&k, &iv, &m, algo).map_err(lib)?,
         "dec" if vi => AES::decrypt_impl(&k, &iv, &m, algo).map_err(lib)?,
@@ -436,5 +455,10 @@ fn aes(req: &Value) -> R {
         "dec" => AES::decrypt(&k, &iv, &m, algo).map_err(lib)?,
         d => return Err(drv(format!("dir {}", d))),
     };
+    if bo(req, "digest_only") {
+        // large outputs: length + SHA-256 (std of the sha2 crate through the library's own one-shot hash is avoided: plain sum + xor fold too)
+        let sum: u64 = out.iter().map(|b| *b as u64).sum();
+        return Ok(json!({"len": out.len(), "sha256": Hash::sha_256(&out).to_hex(), "sum": sum, "head": hex::encode(&out[..out.len().min(32)]), "tail": hex::encode(&out[out.len().saturating_sub(32)..])}));
+    }
     Ok(h(&out))
 }
